@@ -116,6 +116,15 @@ pub fn run_script(sh: &mut shell::Shell, args: &Vec<String>) -> i32 {
     status
 }
 
+/// After `set -e` a failing command ends the script: whoever sees this
+/// stops running further lines, whatever construct the command was in.
+fn stopped_by_error(sh: &shell::Shell, cr_list: &[CommandResult]) -> bool {
+    match cr_list.last() {
+        Some(last) => last.status != 0 && sh.exit_on_error,
+        None => false,
+    }
+}
+
 pub fn run_lines(sh: &mut shell::Shell,
                  lines: &str,
                  args: &Vec<String>,
@@ -126,6 +135,9 @@ pub fn run_lines(sh: &mut shell::Shell,
             for pair in pairs_exp {
                 let (mut _cr_list, _cont, _brk) = run_exp(sh, pair, args, false, capture);
                 cr_list.append(&mut _cr_list);
+                if stopped_by_error(sh, &cr_list) {
+                    break;
+                }
             }
         }
         Err(e) => {
@@ -375,7 +387,7 @@ fn run_exp_for(sh: &mut shell::Shell,
                 let (mut _cr_list, _cont, _brk) = run_exp(
                     sh, pair.clone(), args, true, capture);
                 cr_list.append(&mut _cr_list);
-                if _brk {
+                if _brk || stopped_by_error(sh, &cr_list) {
                     break;
                 }
             }
@@ -392,7 +404,7 @@ fn run_exp_while(sh: &mut shell::Shell,
     loop {
         let (mut _cr_list, passed, _cont, _brk) = run_exp_test_br(sh, pair_while.clone(), args, true, capture);
         cr_list.append(&mut _cr_list);
-        if !passed || _brk {
+        if !passed || _brk || stopped_by_error(sh, &cr_list) {
             break;
         }
     }
@@ -434,12 +446,6 @@ fn run_exp(sh: &mut shell::Shell,
             let line_new = expand_args(line, &args[1..]);
             let mut _cr_list = execute::run_command_line(sh, &line_new, true, capture);
             cr_list.append(&mut _cr_list);
-            if let Some(last) = cr_list.last() {
-                let status = last.status;
-                if status != 0 && sh.exit_on_error {
-                    return (cr_list, false, false);
-                }
-            }
         } else if rule == parsers::locust::Rule::EXP_IF {
             let (mut _cr_list, _cont, _brk) = run_exp_if(sh, pair, args, in_loop, capture);
             cr_list.append(&mut _cr_list);
@@ -455,6 +461,9 @@ fn run_exp(sh: &mut shell::Shell,
         } else if rule == parsers::locust::Rule::EXP_WHILE {
             let mut _cr_list = run_exp_while(sh, pair, args, capture);
             cr_list.append(&mut _cr_list);
+        }
+        if stopped_by_error(sh, &cr_list) {
+            return (cr_list, false, false);
         }
     }
     (cr_list, false, false)
